@@ -5,11 +5,15 @@ import AvoVerif.Props.C03Pipeline
 #print axioms Avo.Alloc.regs_idsDetermined
 #print axioms Avo.Alloc.regs_restricted_uniform
 #print axioms Avo.Alloc.candidates_unrestricted
-#print axioms Avo.Alloc.restricted_are_sp_k0
+#print axioms Avo.Alloc.sp_k0_never_candidates
+#print axioms Avo.Alloc.sp_k0_rows_restricted
+#print axioms Avo.Alloc.candidates_right_kind
+#print axioms Avo.Alloc.candidates_nonempty
+#print axioms Avo.Alloc.checkBindOne_sound
+#print axioms Avo.Alloc.checkBind_sound
+#print axioms Avo.Alloc.sameClass_of_shape
 #print axioms Avo.Alloc.high_byte_views
 #print axioms Avo.Alloc.lookup_returns_requested_view
-#print axioms Avo.Alloc.bp_last
-#print axioms Avo.Alloc.candidate_counts
 #print axioms Avo.Alloc.compile_bound_ok
 #print axioms Avo.Alloc.compile_targets_unrestricted
 #print axioms Avo.Alloc.targets_in_table
